@@ -170,6 +170,12 @@ func RunTree(r *vh.Run, rng *vh.RNG, name string, t *chainx.Tree, sched [][]int)
 		if s.dead || s.idx != nd.CM.Tip() {
 			return
 		}
+		// a subscriber at the tip is told nothing
+		if rus, aus, err := nd.CM.UpdatesSince(s.idx, s.chunk); err != nil || len(rus)+len(aus) != 0 {
+			c.Oracle("updatessince-at-tip-returns-updates", "subscriber %s is at the tip %s and asks for %d updates: got %d reverts, %d applies, error %v", s.name, idxStr(t, s.idx), s.chunk, len(rus), len(aus), err)
+			s.dead = true
+			return
+		}
 		tid, _ := t.Lookup(nd.CM.Tip().ID)
 		if !t.AllValid(tid) {
 			return
@@ -338,6 +344,7 @@ func Run(r *vh.Run) {
 		if i%3 == 2 {
 			runListenerChurn(r, trng, fmt.Sprintf("tree%d/listener-churn", i), t)
 		}
+		runGated(r, trng, fmt.Sprintf("tree%d/gated-poll", i), t)
 		// pruning under caught-up subscribers, old blocks offered again afterwards
 		if i%2 == 0 {
 			sched := t.Schedule(trng)
